@@ -23,14 +23,16 @@ TRUSTED_BASE = [
 ]
 
 # property -> configuration of the Verus route
+ALL_TYPES = pl.SCALAR_TYPES + pl.VECTOR_UNITS
 VERUS_PROPS = {
-    "C01": dict(units=pl.SCALAR_TYPES),
-    "C02": dict(units=pl.SCALAR_TYPES),
-    "C03": dict(units=pl.SCALAR_TYPES),
-    "C08": dict(units=pl.SCALAR_TYPES),
-    "C09": dict(units=pl.SCALAR_TYPES),
-    "C10": dict(units=pl.SCALAR_TYPES),
-    "C15": dict(units=pl.SCALAR_TYPES),
+    "C01": dict(units=ALL_TYPES),
+    "C02": dict(units=ALL_TYPES + ["Derivative"]),
+    "C03": dict(units=ALL_TYPES),
+    "C07": dict(units=pl.VECTOR_UNITS + ["Derivative"]),
+    "C08": dict(units=ALL_TYPES),
+    "C09": dict(units=ALL_TYPES),
+    "C10": dict(units=ALL_TYPES),
+    "C15": dict(units=ALL_TYPES),
 }
 
 
@@ -109,6 +111,7 @@ def required_anchors(pid, metas):
         "C02": ["mul", "div", "add", "sub", "neg", "chain_rule"],
         "C03": ["mul", "div", "add", "sub", "neg", "chain_rule", "mul_add", "powd", "tan", "tanh"],
         "C08": ["mul", "div", "add", "sub", "neg", "mul_assign", "div_assign", "add_assign", "sub_assign", "inv", "from", "zero", "one", "mul_add"],
+        "C07": ["mul", "div", "add", "sub", "neg", "mul_assign", "div_assign", "add_assign", "sub_assign", "chain_rule"],
         "C09": ["powi", "powf", "powd"],
         "C10": ["powi", "powf", "atan2", "sph_j0", "sph_j1", "sph_j2", "exp_m1", "ln_1p"],
         "C15": ["sph_j0", "sph_j1", "sph_j2"],
@@ -116,6 +119,11 @@ def required_anchors(pid, metas):
     lost = []
     for u, m in metas.items():
         names = {f["name"] for f in m["functions"]}
+        if u == "Derivative":
+            for n in ["mul", "div", "tr_mul", "add", "sub", "neg", "add_assign", "sub_assign", "mul_assign", "div_assign", "unwrap_generic"]:
+                if n not in names:
+                    lost.append("Derivative::" + n)
+            continue
         for n in need:
             if n not in names:
                 lost.append("%s::%s" % (u, n))
